@@ -11,7 +11,7 @@ class C14(Prop):
     extra_modules = ['Cbor.Lemmas.Sequence']
     theorems = ['Props.C14.C14_sequence', 'Props.C14.C14_sequence_fuel', 'Props.C14.C14_sequence_encoded', 'Props.C14.C14_suffix', 'Props.C14.C14_two', 'Lemmas.Local.run_suffix', 'Lemmas.Refine.load_eq']
     trusted_base = BASE_TRUST + MODEL_TRUST
-    rule = ('pairs (x, y): x an enumerated well-formed item in an exactly-sized block, y in {empty, every single byte (sampled), other items, garbage}; '
+    rule = ('pairs (x, y): x an enumerated well-formed item in an exactly-sized block, y in {empty, every single byte (sampled), other items, garbage, several hundred bytes of further items / of break bytes}; text strings with invalid UTF-8 content followed by every single byte; '
             'and concatenations of up to 6 items split by repeated decoding; sequences of 6000 items (all kinds; containers and tags only) decoded in one process; non-trivial = y non-empty; distinct by (x, y, outcome)')
 
     def pairs(self, tier, rng):
@@ -24,6 +24,19 @@ class C14(Prop):
             ys = [b'', b'\xff', b'\x00', bytes([rng.below(256)]), bytes(rng.below(256) for _ in range(1 + rng.below(6))), rng.choice(wf[:200])]
             if tier == 'thorough': ys += [bytes([v]) for v in range(0, 256, 5)]
             for y in ys: out.append((x, y))
+        # long continuations: what follows x is hundreds of bytes of further items (a decoder that looks ahead, or takes a different path when
+        # much input remains, shows here); every kind of x head, incl. strings with 1- and 2-byte length heads
+        tail = b''.join(w for w in wf[:400] if len(w) <= 12)[:600]
+        for x in wf[:: (2 if tier == 'thorough' else 5)]:
+            if len(x) <= 300: out.append((x, tail)); out.append((x, b'\xff' * 300))
+        # text whose content is not valid UTF-8 (decoding must not depend on it), followed by bytes that would continue a UTF-8 sequence, look
+        # like a container head, a break, more payload ...
+        bad = [b'\x62\x61\xc3', b'\x61\xc3', b'\x63\x61\xe2\x82', b'\x64\xf0\x9f\x98\x61', b'\x61\x80', b'\x78\x18' + b'a' * 23 + b'\xc3', b'\x7f\x61\xc3\xff',
+               b'\x82\x61\xc3\x01', b'\xa1\x61\xe2\x00']
+        wf = wf + [b for b in bad if b not in wf]
+        for x in bad:
+            for v in range(256): out.append((x, bytes([v])))
+            out.append((x, b'\x82\x01\x02')); out.append((x, b'\xa9\x00')); out.append((x, tail))
         return wf, out
 
     def corr_lines(self, tier, rng):
@@ -69,7 +82,7 @@ class C14(Prop):
             h = 1469598103934665603
             for n in lens: h = ((h ^ n) * 1099511628211) % 2 ** 64
             return h
-        small = [x for x in wf if len(x) <= 24]
+        small = [x for x in wf if len(x) <= 40]
         maps = [x for x in small if x and (x[0] >> 5) in (4, 5, 6)] or small
         for n in ((6000, 9000) if tier == 'thorough' else (6000,)):
             dmaps = [x for x in small if x and 0xa1 <= x[0] <= 0xbb] or maps
